@@ -45,7 +45,7 @@ class Hang(KeyboardInterrupt):
     eat it, and Hypothesis passes KeyboardInterrupt straight through instead of replaying the example (and hanging again)."""
 
 
-HANG_LIMIT = float(os.environ.get('PV_HANG_LIMIT', '45'))     # seconds without a finished case; typical cases take milliseconds
+HANG_LIMIT = float(os.environ.get('PV_HANG_LIMIT', '150'))     # seconds without a finished case; typical cases take milliseconds
 
 
 def _on_alarm(signum, frame):
